@@ -4,6 +4,7 @@ import (
 	"fmt"
 	"math"
 	"strings"
+	"sync"
 	"testing"
 
 	"github.com/arloliu/go-secs/v2/hsms"
@@ -100,6 +101,12 @@ func msgValue(m *hsms.DataMessage) (e5.Value, error) {
 	return obs.Value(it, obs.ViaTo)
 }
 
+var (
+	c13mu       sync.Mutex
+	c13Encoders = map[string]*sml.Encoder{}
+	c13Parser   *sml.Parser
+)
+
 // TestC13EncodeParse: strict encode -> strict parse is the identity on messages.
 func TestC13EncodeParse(t *testing.T) {
 	ev.Rule("messages (stream 0-127, any function, W only on odd functions) with bodies over lists, ASCII with all 256 byte values, binary, boolean, every integer and float width incl. NaN/Inf/-0/extremes, JIS-8 and localized text free of quotes/backslash/angle brackets/control characters, nesting <= 8, empty items and empty body x ASCII quote style x S/F quote style x binary style x whitespace indent of length 0-8. Oracle: ParseStrict(EncodeMessage_strict(m)) is exactly one message with the same stream/function/W and an equal body (NaN payload and localized header aside). Non-trivial: body has an ASCII item with a quote, backslash, angle bracket, control or 8-bit byte, or a float extreme, or depth >= 2; distinct by body encoding + options.")
@@ -130,6 +137,19 @@ func TestC13EncodeParse(t *testing.T) {
 			classes = append(classes, "empty-body")
 		}
 		text, err := sml.NewEncoder(opts...).EncodeMessage(m)
+		// a long-lived encoder with the same options (it has encoded every earlier message of this
+		// process drawn with them) and a long-lived strict parser must agree with fresh ones
+		c13mu.Lock()
+		le := c13Encoders[odesc]
+		if le == nil {
+			le = sml.NewEncoder(opts...)
+			c13Encoders[odesc] = le
+		}
+		ltext, lerr := le.EncodeMessage(m)
+		c13mu.Unlock()
+		if ltext != text || (lerr == nil) != (err == nil) {
+			rt.Fatalf("C13 violated: a long-lived Encoder (%s) and a fresh one render S%dF%d %s differently\n long-lived: %q (%v)\n fresh:      %q (%v)", odesc, stream, function, v, trunc200(ltext), lerr, trunc200(text), err)
+		}
 		ev.Case(special || extremeNumeric(v) || v.Depth() >= 2, fmt.Sprintf("%x|%s|%d|%d|%v", e5.Encode(v), odesc, stream, function, w), func() any {
 			return map[string]any{"message": fmt.Sprintf("S%dF%d W=%v %s", stream, function, w, v), "options": odesc, "text": trunc200(text)}
 		}, classes...)
@@ -155,6 +175,18 @@ func TestC13EncodeParse(t *testing.T) {
 			rt.Fatalf("C13 violated (%s): body %s parsed back as %s\n text: %q", odesc, v, pv, trunc200(text))
 		}
 		// the same through a reusable Parser and ParseMessage
+		c13mu.Lock()
+		if c13Parser == nil {
+			c13Parser = sml.NewParser(sml.WithParserStrictMode(true))
+		}
+		lpm, lperr := c13Parser.ParseMessage(text)
+		c13mu.Unlock()
+		if lperr != nil {
+			rt.Fatalf("C13 violated: a long-lived strict Parser rejects what ParseStrict accepts: %v\n text: %q", lperr, trunc200(text))
+		}
+		if lv, err := msgValue(lpm); err != nil || !sameSML(lv, v) {
+			rt.Fatalf("C13 violated: a long-lived strict Parser read the body as %s (err %v), want %s", lv, err, v)
+		}
 		pm, err := sml.NewParser(sml.WithParserStrictMode(true)).ParseMessage(text)
 		if err != nil {
 			rt.Fatalf("C13 violated: Parser.ParseMessage rejects what ParseStrict accepts: %v", err)
